@@ -64,6 +64,12 @@ def p_rules(p: Project, rep: Report):
     if en is None:
         rep.check("P-R1", "TreeBuilder.end:overridden", False, "TreeBuilder does not override end(): closing tags are forwarded to ET.TreeBuilder.end() unchecked, so mis-nested or stray end tags are silently accepted", ploc(p, ci.node))
     cont = open_container(ci)
+    if cont is not None and cont.startswith("self.") and cont.count(".") == 1:
+        from .rules_purity import class_level_container
+
+        shared_at, owned = class_level_container(ci, cont[5:])
+        bad = shared_at is not None and not owned
+        rep.check("P-R1", "TreeBuilder:open-tags-per-instance", not bad, f"{cont} is a container created once in the class body and never re-bound per instance: every TreeBuilder in the process pushes to and pops from one list, so what a parse accepts or rejects depends on what earlier (failed) and concurrent parses left open" if bad else "", ploc(p, shared_at[1]) if bad else ploc(p, ci.node))
     if en is not None:
         tagp = params_of(en)[1]
         cfg = CFG(en)
